@@ -4,12 +4,12 @@ import os
 import nv
 
 
-def gen_histories(alphabet, depth, rollback=True, emit="all", workers=8, timeout=2400, simulate=None, seed=None):
+def gen_histories(alphabet, depth, rollback=True, emit="all", workers=8, timeout=2400, simulate=None, seed=None, invariants="Bounded BatchEq SaveReplayEq TypeErrorSilent EmitCase"):
     cfg = os.path.join(nv.SPEC, "_gen_Session_%s_%d_%d.cfg" % (alphabet, depth, os.getpid()))
     with open(cfg, "w") as f:
         f.write("CONSTANTS RollbackImports = %s\n          Depth = %d\n          Alphabet = \"%s\"\n          Emit = %s\n" % (
             "TRUE" if rollback else "FALSE", depth, alphabet, '"%s"' % emit))
-        f.write("SPECIFICATION %s\nINVARIANTS Bounded BatchEq SaveReplayEq TypeErrorSilent EmitCase\nPROPERTY FailAtomic\nCHECK_DEADLOCK FALSE\n" % ("SimSpec" if simulate else "Spec"))
+        f.write("SPECIFICATION %s\nINVARIANTS %s\nPROPERTY FailAtomic\nCHECK_DEADLOCK FALSE\n" % ("SimSpec" if simulate else "Spec", invariants))
     try:
         res = nv.tlc("MC_Session", os.path.basename(cfg), workers=(4 if simulate else workers), timeout=timeout,
                      want_tags=("CASE", "META"), simulate=(max(1, simulate // 4) if simulate else None), depth=(depth + 1) if simulate else None, seed=seed)
